@@ -567,6 +567,22 @@ fn w_reply(deps: DepsMut, env: Env, msg: Reply) -> AnyResult<Response> {
     Scripted { tag: WTAG.into(), checksum: None }.reply(deps, env, msg)
 }
 
+// the same behaviour packaged WITHOUT the optional entry points: `ContractWrapper::new_with_empty(exec, inst, query)` only.
+// Asking such a contract for `reply`, `sudo` or `migrate` is an error (never a silent success).
+fn n_exec(deps: DepsMut, env: Env, info: MessageInfo, msg: String) -> AnyResult<Response> {
+    Scripted { tag: "N".into(), checksum: None }.run(deps, env, "execute", Some(&info), msg, "-".into())
+}
+fn n_inst(deps: DepsMut, env: Env, info: MessageInfo, msg: String) -> AnyResult<Response> {
+    Scripted { tag: "N".into(), checksum: None }.run(deps, env, "instantiate", Some(&info), msg, "-".into())
+}
+fn n_query(deps: Deps, env: Env, msg: String) -> AnyResult<Binary> {
+    Scripted { tag: "N".into(), checksum: None }.query(deps, env, json_str(&msg))
+}
+
+pub fn bare_contract() -> Box<dyn Contract<Empty>> {
+    Box::new(cw_multi_test::ContractWrapper::new_with_empty(n_exec, n_inst, n_query))
+}
+
 pub fn wrapped_contract() -> Box<dyn Contract<Empty>> {
     Box::new(
         cw_multi_test::ContractWrapper::new_with_empty(w_exec, w_inst, w_query)
@@ -1022,6 +1038,7 @@ fn exec_wasm_on<A: Api>(mut apps: Vec<AppOf<A>>, sym_fn: fn(&AppOf<A>, &str) -> 
                 format!("bound {}", r)
             }
             "store-w" => outcome(guarded(|| Ok(app.store_code(wrapped_contract()))), |id| format!("id {}", id)),
+            "store-n" => outcome(guarded(|| Ok(app.store_code(bare_contract()))), |id| format!("id {}", id)),
             "store-as" => {
                 let (c, tag) = (Addr::unchecked(real(a(1))), a(2).to_string());
                 outcome(guarded(|| Ok(app.store_code_with_creator(c, Box::new(Scripted { tag, checksum: None })))), |id| format!("id {}", id))
@@ -1059,7 +1076,9 @@ fn exec_wasm_on<A: Api>(mut apps: Vec<AppOf<A>>, sym_fn: fn(&AppOf<A>, &str) -> 
                     |_| "ok".into(),
                 )
             }
-            "exec" => {
+            // `exec-bare`: the same as `exec`; a separate name because the tree involves a contract without a reply entry point
+            // (the model-free predicates, which assume that every contract has one, leave these transactions alone)
+            "exec" | "exec-bare" => {
                 let sender = Addr::unchecked(real(a(1)));
                 match items.get(2).and_then(to_msg) {
                     Some(m) => outcome(guarded(|| app.execute(sender, m)), |r| format!("ok {}", fmt_resp(&r))),
